@@ -1,16 +1,45 @@
-"""Model checking of the scanner-level specification shared by C06, C07, C09, C15 (and C02's splice precondition):
-MC_Scanner explores S4/S5 token by token over a stream alphabet, all thresholds in lockstep, and checks the
-same Props.tla predicates that judge the real code's observations."""
+"""Model-checking runs shared by the checks (M |= P inside bounds; counts go to the evidence).
+MC_Scanner: S4/S5 token by token, thresholds in lockstep, the Props.tla predicates as invariants (C06 C07 C09 C15 C02).
+MC_Api: the whole-library model against the two-run properties (C10 C11 C17 C18). MC_Tokenizer: S6. MC_Spell/MC_SpellOrd:
+the spelling grammars driving the interpreter models word by word (C01 C16 C04). MC_Dict: dictation grouping (C08)."""
 import os
 import vlib
 
+LANGS = ["en", "fr", "es", "pt", "it", "de", "nl"]
+
 
 def model_check(ctx, prop):
-    if ctx.quick():
-        vlib.model_check(ctx, "MC_Scanner", "MC_Scanner_en_quick.cfg", workers=8, heap="4g")
-        vlib.model_check(ctx, "MC_Scanner", "MC_Scanner_en_hints.cfg", workers=4, heap="3g")
+    q = ctx.quick()
+    runs = []
+    if prop in ("C10", "C11", "C17", "C18"):
+        runs += [("MC_Api", "MC_Api_en_quick.cfg" if q else "MC_Api_en.cfg"), ("MC_Api", "MC_Api_fr_quick.cfg" if q else "MC_Api_fr.cfg")]
+        if prop in ("C11", "C17"):
+            runs += [("MC_Tokenizer", "MC_Tokenizer.cfg")]
+        vlib.model_check_many(ctx, runs, workers_each=6 if q else 7, heap="4g")
+        return
+    if prop in ("C02", "C03"):
+        runs += [("MC_Tokenizer", "MC_Tokenizer.cfg")]
+    if q:
+        runs += [("MC_Scanner", "MC_Scanner_en_quick.cfg"), ("MC_Scanner", "MC_Scanner_en_hints.cfg"), ("MC_Scanner", "MC_Scanner_fr_quick.cfg"),
+                 ("MC_Scanner", "MC_Scanner_%s_quick.cfg" % ["de", "es", "it", "nl", "pt"][ctx.seed % 5])]
+        vlib.model_check_many(ctx, runs, workers_each=4, heap="4g")
     else:
-        vlib.model_check(ctx, "MC_Scanner", "MC_Scanner_en_thorough.cfg", workers=14, heap="8g")
-        vlib.model_check(ctx, "MC_Scanner", "MC_Scanner_en_thorough_hints.cfg", workers=14, heap="8g")
+        runs += [("MC_Scanner", "MC_Scanner_en_thorough.cfg"), ("MC_Scanner", "MC_Scanner_en_thorough_hints.cfg")]
+        runs += [("MC_Scanner", "MC_Scanner_%s_thorough.cfg" % l) for l in ["fr", "de", "es", "it", "nl", "pt"]]
+        vlib.model_check_many(ctx, runs, workers_each=4, heap="6g")
     if prop in ("C07",):
         vlib.mutant_refuted(ctx, "MC_Scanner", os.path.join(vlib.SPEC, "MC_Scanner_en_mut_shift.cfg"), "Bug_ShiftNonAtomic")
+
+
+def spell_mc(ctx, ordinals=False):
+    q = ctx.quick()
+    if ordinals:
+        runs = [("MC_SpellOrd", "MC_SpellOrd_%s.cfg" % l) for l in LANGS]
+    else:
+        runs = [("MC_Spell", "MC_Spell_%s_%s.cfg" % (l, "quick" if q else "thorough")) for l in LANGS]
+    vlib.model_check_many(ctx, runs, workers_each=2 if q else 4, heap="3g" if q else "6g")
+
+
+def dict_mc(ctx):
+    vlib.model_check_many(ctx, [("MC_Dict", "MC_Dict.cfg"), ("MC_Dict", "MC_Dict_fr.cfg"), ("MC_Dict", "MC_Dict_de.cfg"), ("MC_Dict", "MC_Dict_nl.cfg")],
+                          workers_each=3, heap="3g")
